@@ -6,9 +6,10 @@ Driver for C07. Case line:
   <id> <30|31> <strict> <nenv> ENV* <nops> OP*  =>  OFF ON <metaValid> <refsResolve> <stable> <validatorAgrees> <served> <coldStart> <dataIntact>
 
   ENV := <tid> S <name> <pkgPath> <n> FIELD*  |  <tid> A TY
-  FIELD := F <name> <exported> <json> <validate> <query> <path> <header> <cookie> TY | E <tid>
+  FIELD := F <name> <exported> <json> <validate> <query> <path> <header> <cookie> <default> TY | E <tid>
   TY := P <kind> | T | Ptr TY | Sl TY | Ar TY | Mp <0|1> TY | N <tid>
   OP := <method> <path> <summary> <description> <opID> (0 | 1 TY) <nresp> { <status> <statusText> (0 | 1 TY) }*
+        <ntags> <tag>* <deprecated> <nsec> { <scheme> <nscopes> <scope>* }*
   OFF := CP (an operation constructor panicked: invalid path) | P (Generate panicked) | E <class> | D JSON
   ON  := CP | P | E <class> | S (same bytes as OFF's document) | X (a different document)
   JSON := O <n> {<key> JSON}* | A <n> JSON* | S <str> | N <str> | T | F | Z
@@ -104,9 +105,9 @@ def pField : M Field := do
   match t with
   | "F" => do
     let name ← pStr; let ex ← pBool; let json ← pStr; let validate ← pStr
-    let query ← pStr; let path ← pStr; let header ← pStr; let cookie ← pStr
+    let query ← pStr; let path ← pStr; let header ← pStr; let cookie ← pStr; let dflt ← pStr
     let ty ← pTy
-    pure (.field { name, exported := ex, json, validate, query, path, header, cookie } ty)
+    pure (.field { name, exported := ex, json, validate, query, path, header, cookie, dflt } ty)
   | "E" => Field.embed <$> pNat
   | _ => fail s!"unknown field token {t}"
 
@@ -125,7 +126,10 @@ def pOp : M OpIn := do
   let method ← pStr; let path ← pStr; let summary ← pStr; let description ← pStr; let opID ← pStr
   let req ← pOpt pTy
   let resps ← pList (do let st ← pNat; let text ← pStr; let ty ← pOpt pTy; pure (st, text, ty))
-  pure { method, path, summary, description, opID, req, resps }
+  let tags ← pList pStr
+  let deprecated ← pBool
+  let security ← pList (do let sc ← pStr; let scopes ← pList pStr; pure (sc, scopes))
+  pure { method, path, summary, description, opID, req, resps, tags, deprecated, security }
 
 structure Input where
   v : Version
@@ -276,6 +280,17 @@ def pOperation : M (Operation Schema) := do
     if k = s "operationId" then do let v ← pJStr; pure { o with opId := v }
     else if k = s "summary" then do let v ← pJStr; pure { o with summary := v }
     else if k = s "description" then do let v ← pJStr; pure { o with description := v }
+    else if k = s "tags" then do let v ← pJStrs; pure { o with tags := v }
+    else if k = s "deprecated" then do let v ← pJBool; pure { o with deprecated := v }
+    else if k = s "security" then do
+      let v ← pJArr (do
+        let r ← pObj ([] : List (B × List B)) fun sc acc => do
+          let scopes ← pJStrs
+          pure (acc ++ [(sc, scopes)])
+        match r with
+        | [x] => pure x
+        | _ => fail "a security requirement with other than one scheme")
+      pure { o with security := v }
     else if k = s "parameters" then do let v ← pJArr pParam; pure { o with params := v }
     else if k = s "responses" then do let v ← pResponses; pure { o with resps := v }
     else if k = s "requestBody" then do
@@ -420,6 +435,9 @@ def diffOperation (path : String) (m i : Operation Schema) : Option String :=
   if m.opId ≠ i.opId then some s!"{path}: operationId {String.ofList m.opId} vs {String.ofList i.opId}"
   else if m.summary ≠ i.summary then some s!"{path}: summary"
   else if m.description ≠ i.description then some s!"{path}: description"
+  else if m.tags ≠ i.tags then some s!"{path}: tags {m.tags.map String.ofList} vs {i.tags.map String.ofList}"
+  else if m.deprecated ≠ i.deprecated then some s!"{path}: deprecated"
+  else if m.security ≠ i.security then some s!"{path}: security"
   else
     (diffList (path ++ "/parameters") (fun p a b =>
       if a.name ≠ b.name ∨ a.loc ≠ b.loc ∨ a.required ≠ b.required then
